@@ -5,7 +5,7 @@
    overlap flag is raised exactly when a used bit is claimed again (C02_overlap_flag).
    The composite statement (layout of whole parameter trees) is correspondence-only. *)
 From Coq Require Import ZArith List Bool.
-From OV Require Import Base.Bytes Base.Wire Generated Model.Str Model.Codec Proofs.BytesProofs Proofs.AtomicProofs Proofs.CodecProps Proofs.FlatProofs.
+From OV Require Import Base.Bytes Base.Wire Generated Model.Str Model.Codec Proofs.BytesProofs Proofs.AtomicProofs Proofs.CodecProps Proofs.FlatProofs Proofs.TreeProofs Proofs.TreeWireProofs.
 Import ListNotations.
 Open Scope Z_scope.
 
@@ -63,3 +63,44 @@ Theorem C02_wire_example :
   concat (map (fun p => wire_bytes (fst p) (snd p)) (combine fl [34; 2748; 254])) = [34; 188; 10; 254].
 Proof. exact wire_example. Qed.
 Print Assumptions C02_wire_example.
+
+(* ---------- structures nested to any depth (Proofs/TreeWireProofs.v) ---------- *)
+(* the PDU of a message whose parameters are standard-length CODED-CONST / VALUE parameters or STRUCTUREs of such,
+   recursively, is the concatenation of the wire bytes of the leaves in document order (depth first): a structure
+   contributes nothing of its own, nothing is inserted between or around structures, no overlap warning.
+   (side condition: the model's fuel suffices for the nesting depth -- a computable inequality, see the example) *)
+Theorem C02_nested_wire_format : forall ts d,
+  (forall t, In t ts -> (wdepth t <= d)%nat /\ wwf t) ->
+  NoDup (map (fun t => pname (w_p (t_w t))) ts) ->
+  let ws := map t_w ts in
+  let ps := map w_p ws in
+  (3 * d + 3 <= fuel_of ps)%nat ->
+  encode_msg ps None (VDict (in_dict (map as_m ws))) = Ok (concat (flat_map leaves ts), false).
+Proof. exact tree_wire_format. Qed.
+Print Assumptions C02_nested_wire_format.
+
+(* a leaf given by its raw value is well-formed, with the bytes of C02_flat_wire_format *)
+Theorem C02_raw_leaf : forall x vv raw,
+  sane vv x -> 0 <= raw < 2 ^ f_bl x ->
+  raw_of (vv (fname x)) (f_bl x) (f_bt x) (f_en x) (f_hl x) = Ok raw ->
+  value_of_raw raw (f_bl x) (f_bt x) (f_en x) (f_hl x) = Ok (vv (fname x)) ->
+  wwf (raw_leaf x vv raw).
+Proof. exact raw_leaf_wf. Qed.
+Print Assumptions C02_raw_leaf.
+
+(* the premises are satisfiable: service id, a structure holding a value and a structure (a 12 bit little-endian
+   value and a byte), a trailing value *)
+Example C02_nested_example :
+  let u8 nm := mkF nm 8 BUint None true BUint None in
+  let vv (z : Z) := fun _ : name => VInt z in
+  let ts := [raw_leaf (mkF [115] 8 BUint None true BUint (Some (VInt 34))) (vv 34) 34;
+             WNode [111] [raw_leaf (u8 [97]) (vv 1) 1;
+                          WNode [105] [raw_leaf (mkF [98] 12 BUint None false BUint None) (vv 2748) 2748;
+                                       raw_leaf (u8 [99]) (vv 3) 3]];
+             raw_leaf (u8 [122]) (vv 255) 255] in
+  (forall t, In t ts -> (wdepth t <= 2)%nat /\ wwf t) /\
+  NoDup (map (fun t => pname (w_p (t_w t))) ts) /\
+  (3 * 2 + 3 <= fuel_of (map w_p (map t_w ts)))%nat /\
+  concat (flat_map leaves ts) = [34; 1; 188; 10; 3; 255].
+Proof. exact tree_wire_example. Qed.
+Print Assumptions C02_nested_example.
